@@ -1,7 +1,18 @@
 (* C05 — TryEval is at least as informative as three-valued (Kleene) evaluation.
-   Statements about `trysem` (tied to the Go TryEval by the correspondence); proofs in Proofs/TryFacts.v. *)
-Require Import Base Opcode Tables Ops Tree Opt Flat Run TryFacts.
+   `tryeval` is the model of Expr.TryEval run on the compiled program (compared with Go's TryEval on Go's own
+   programs on every run), `trysem` its tree-level meaning; proofs in Proofs/TryCorrect.v, TryFacts.v. *)
+Require Import Base Opcode Tables Ops Tree Opt Flat Run TryFacts EvalDefs EvalTop TryCorrect.
 Open Scope Z_scope.
+
+(* machine level: on every expression whose sub-expressions do not fail, TryEval of the compiled program returns
+   the strong Kleene value (VDNE = unknown, reported as ErrDNE by TryEvalBool) — never an error, a panic or a default *)
+Theorem C05_tryeval_is_kleene : forall custom fetch cached t v,
+  subs_ok custom fetch cached t -> kleene fetch custom cached t = Ok v ->
+  snd (tryeval fetch custom cached (compile t)) = MVal v.
+Proof.
+  intros custom fetch cached t v Hs Hk. rewrite tryrun_compile_correct. unfold sem_obs. cbn [snd].
+  rewrite (trysem_is_kleene custom fetch cached t Hs), Hk. reflexivity.
+Qed.
 
 (* on every expression whose sub-expressions do not fail (subs_ok), TryEval's result IS strong Kleene evaluation
    with VDNE as "unknown": `and` with any false operand is false, `or` with any true operand is true wherever the
@@ -39,3 +50,4 @@ Example C05_ex_subs_ok : subs_ok nocustom ex_fetch ex_cached ex_tree.
 Proof. cbn. repeat split; eexists; vm_compute; reflexivity. Qed.
 
 Print Assumptions C05_trysem_is_kleene.
+Print Assumptions C05_tryeval_is_kleene.
